@@ -17,6 +17,7 @@ Directives (all start with `//@`):
   //@loop <N> [iter=<name>]                     followed by //@| clause lines
   //@closure <N> params="a: T; b: U" ret="(r: X)"   followed by //@| clause lines
   //@index var:fn var2:fn2                      R-index: `var[i]` on a foreign container becomes `fn(&var, i)`
+  //@rename <name> match="regex with one group"   R-alpha: the local bound by the matching `let` is called <name> in the unit (renamed if the source differs)
   //@const NAME:fn                              R-const: the module constant NAME becomes the call `fn()` (its value is extracted with kind=const)
   //@binop var-:fn var/:fn2                     R-binop: `var - e` / `&var - e` becomes `fn(var, e)` (operator stub)
   //@outtype <var> <Type>                       type ascription for a rule-introduced `let mut <var> = Vec::new();`
@@ -69,6 +70,7 @@ class BodyDirective:
         self.binop_map = {}  # R-binop: "<var><op>" -> function
         self.const_map = {}  # R-const: constant -> function
         self.outtypes = {}   # name of a rule-introduced collection variable -> its type (ascription only)
+        self.renames = []    # R-alpha: {"to", "match"}
 
 
 def parse_template(path):
@@ -130,6 +132,9 @@ def parse_template(path):
             elif word == "outtype":
                 nm, ty = rest.split(None, 1)
                 cur.outtypes[nm] = ty.strip()
+            elif word == "rename":
+                pos, kv = parse_kv(rest)
+                cur.renames.append({"to": pos[0], "match": kv.get("match", "")})
             elif word == "end":
                 segs.append(("body", cur))
                 cur = None
@@ -379,6 +384,8 @@ def assemble(unit, canary=False):
             it["index_map"] = bd.index_map
             it["binop_map"] = bd.binop_map
             it["const_map"] = bd.const_map
+            if bd.renames:
+                it["renames"] = bd.renames
             if kv.get("kind"):
                 it["kind"] = kv["kind"]
             for k in ("impl_self", "impl_trait", "in_trait", "slice_from", "slice_to", "slice_result"):
